@@ -548,6 +548,8 @@ type cliqueRun struct {
 	over     bool // more than limit values were offered
 	returned bool // the producer function returned
 	pi       *engine.PanicInfo
+	raw      [][]int // the slices as received (the receiver keeps them)
+	shared   string  // what went wrong with the received slices as values of their own ("" = nothing)
 }
 
 func siteOf(stack string) string {
@@ -594,6 +596,7 @@ func drainCliques(c *engine.Ctx, key string, h graph.Graph, limit int, buffer in
 				return false
 			}
 			res.got = append(res.got, append([]int(nil), cl...))
+			res.raw = append(res.raw, cl)
 			return true
 		}
 		for {
@@ -631,6 +634,23 @@ func drainCliques(c *engine.Ctx, key string, h graph.Graph, limit int, buffer in
 			}
 		}
 	})
+	// the received slices belong to the receiver: what was received first still reads as it did when it arrived (the
+	// producer went on after sending it), and appending to one of them does not change another
+	if res.closed && res.pi == nil && !res.over {
+		for i, cl := range res.raw {
+			same := len(cl) == len(res.got[i])
+			for k := 0; same && k < len(cl); k++ {
+				same = cl[k] == res.got[i][k]
+			}
+			if !same {
+				res.shared = fmt.Sprintf("clique number %d arrived as %v and reads %v after the producer finished", i, res.got[i], cl)
+				break
+			}
+		}
+		if res.shared == "" {
+			res.shared = engine.AppendTouchesOthers(res.raw)
+		}
+	}
 	return res
 }
 
@@ -687,6 +707,11 @@ func (j *judge) maximalCliques(h graph.Graph, r *engine.Rng) {
 	}
 	if !res.closed {
 		j.violation("AllMaximalCliques", "channel-not-closed", "", extra, fmt.Sprintf("producer returned after %d values without closing the channel", len(res.got)), "channel closed after the last clique")
+		return
+	}
+	c.Obs("received_cliques_kept_and_appended_to", len(res.raw))
+	if res.shared != "" {
+		j.violation("AllMaximalCliques", "received-slices-are-not-values-of-their-own", "", extra, res.shared, "every received clique stays what it was and can be appended to independently")
 		return
 	}
 	var got []string
